@@ -547,7 +547,7 @@ nodesLoop:
 						}
 						tcase.setValue(nil)
 					}
-					if dupcase.IsConstant() && dupcase.Type.Kind() != reflect.Bool {
+					if k := dupcase.Type; dupcase.IsConstant() && k.Kind() != reflect.Bool && !isComplex(k.Kind()) {
 						// Check for duplicates: two constants are duplicates
 						// if they have the same type and the same value.
 						value := [2]any{dupcase.Type, tc.typedValue(dupcase, dupcase.Type)}
